@@ -281,11 +281,16 @@ func VerifyCosmosHeader(myHeader *CosmosHeader, info *CosmosEpochSwitchInfo) err
 		return fmt.Errorf("VerifyCosmosHeader, the size of precommits is not right!")
 	}
 	talliedVotingPower := int64(0)
-	for _, commitSig := range myHeader.Commit.Precommits {
+	for idx, commitSig := range myHeader.Commit.Precommits {
 		if commitSig == nil {
 			continue
 		}
-		idx := commitSig.ValidatorIndex
+		// The position of a precommit in the commit is the index of its validator (as in tendermint's own
+		// VerifyCommit). A precommit that claims another index must not be counted for that other validator.
+		if commitSig.ValidatorIndex != idx {
+			return fmt.Errorf("VerifyCosmosHeader, validator index %d of precommit does not match its position %d",
+				commitSig.ValidatorIndex, idx)
+		}
 		_, val := valset.GetByIndex(idx)
 		if val == nil {
 			return fmt.Errorf("VerifyCosmosHeader, validator %d doesn't exist!", idx)
